@@ -59,6 +59,7 @@ inline void collect_block(EMap &m, const Block &b) {
           VH_TRY(o, "data", obs_array_data(o, a, opt));
           VH_TRY(o, "dims", { ndsize_t nd = a.dimensionCount(); o.u64("ndims", nd); for (ndsize_t k = 1; k <= nd; k++) obs_dimension(o, a.getDimension(k)); });
           eo.attrs += o.s; }
+        VH_LINK(eo, "dimframe", { ndsize_t nd = a.dimensionCount(); for (ndsize_t k = 1; k <= nd; k++) { Dimension dm = a.getDimension(k); if (dm.dimensionType() == DimensionType::DataFrame) eo.links.push_back("dimframe=" + dm.asDataFrameDimension().data()->id()); } });
         e_md(eo, a); e_src(eo, a);
         bo.links.push_back("array=" + a.id()); sub.push_back(a.id()); m[a.id()] = eo;
     }
